@@ -1,0 +1,63 @@
+// Verification-only instrumentation (compiled only with `--cfg betaveros_noulith_verif`).
+// A thread-local step budget and nesting-depth cap for `evaluate`, so that exhaustive
+// exploration harnesses can bound runaway generated programs with an ordinary error
+// instead of a hang or a native stack overflow. With the cfg off this file is not compiled.
+
+use crate::core::{NErr, NRes};
+use std::cell::Cell;
+
+thread_local! {
+    static FUEL: Cell<u64> = Cell::new(u64::MAX);
+    static DEPTH: Cell<u32> = Cell::new(0);
+    static MAX_DEPTH: Cell<u32> = Cell::new(u32::MAX);
+    static EXHAUSTED: Cell<bool> = Cell::new(false);
+    static STEPS: Cell<u64> = Cell::new(0);
+}
+
+pub struct DepthGuard;
+
+impl Drop for DepthGuard {
+    fn drop(&mut self) {
+        DEPTH.with(|d| d.set(d.get().saturating_sub(1)));
+    }
+}
+
+/// Reset the budget: `fuel` evaluate() calls, nesting at most `max_depth`.
+pub fn reset(fuel: u64, max_depth: u32) {
+    FUEL.with(|f| f.set(fuel));
+    MAX_DEPTH.with(|d| d.set(max_depth));
+    DEPTH.with(|d| d.set(0));
+    EXHAUSTED.with(|e| e.set(false));
+    STEPS.with(|s| s.set(0));
+}
+
+/// True when the budget ran out since the last reset (sticky).
+pub fn exhausted() -> bool {
+    EXHAUSTED.with(|e| e.get())
+}
+
+/// Number of evaluate() calls since the last reset.
+pub fn steps() -> u64 {
+    STEPS.with(|s| s.get())
+}
+
+pub fn enter() -> NRes<DepthGuard> {
+    if EXHAUSTED.with(|e| e.get()) {
+        return Err(NErr::throw("verif: fuel exhausted".to_string()));
+    }
+    STEPS.with(|s| s.set(s.get() + 1));
+    let left = FUEL.with(|f| {
+        let v = f.get();
+        if v > 0 {
+            f.set(v - 1);
+        }
+        v
+    });
+    let depth = DEPTH.with(|d| d.get());
+    if left == 0 || depth >= MAX_DEPTH.with(|d| d.get()) {
+        EXHAUSTED.with(|e| e.set(true));
+        return Err(NErr::throw("verif: fuel exhausted".to_string()));
+    }
+    DEPTH.with(|d| d.set(depth + 1));
+    Ok(DepthGuard)
+}
